@@ -224,3 +224,22 @@ MANIFEST_TEXT["C06"] = dict(
     text="Histories are recorded at the client boundary and each intermediate state is compared with routing from scratch, which is exactly the property's statement; reach comes from the operation mix (relative/absolute moves, resizes, deletions, added connectors, no-ops), both modes and both transaction settings. Held on the executions observed.",
     note="Trusts the fresh Router as reference for cost (its own optimality is C04/C05's business) and the harness' convex clipping for validity.",
 )
+
+CHECKS["C10"] = dict(
+    level="exploration",
+    rule=("cases = orthogonal scenes built to force sharing: 1-3 rows x 2-4 columns of rectangles with corridors of width {6,12,30,60}, 2-10 connectors between centre pins "
+          "and free points, idealNudgingDistance {1,4,10,25}, segmentPenalty {10,50,200}; half of the cases with the default nudging options, half over all 2^4 combinations; "
+          "30% of scenes carry checkpoints. route() and displayRoute() are compared. non-trivial = two connectors without a common end are collinear in the raw routes"),
+    workloads=[dict(harness="c10_nudge", mode="nudge", quick=12000, thorough=400000, watchdog=120, san_thorough=6000)],
+    min_nontrivial=dict(quick=2000, thorough=30000),
+    max_inconclusive=0.08,
+    require_obs=["routes", "pairs_sharing_a_raw_stretch", "checkpoints_checked", "separated_pairs_checked", "two_sharer_pairs_checked"],
+    assumptions=["an overlapping stretch is excused when both segments are pinned (first/last segment of a route or carrying a checkpoint) or when the corridor alongside both full segments is narrower than (sharers-1) x distance",
+                 "separation clauses are judged in checkpoint-free scenes only",
+                 "minimum separation model: the library reduces the distance in ten equal steps; separated segments are therefore >= distance/10 apart, and with exactly two sharers >= min(distance, corridor) - 2 steps"],
+)
+MANIFEST_TEXT["C10"] = dict(
+    technique="runtime monitor: own comparison of raw and nudged routes (endpoints, bend counts, checkpoints, collinear overlaps vs corridor width, minimum separation model) on forced-sharing scenes",
+    text="The monitor compares route() with displayRoute() for every connector of scenes constructed so that cheapest routes share corridors: end points must be bit-identical, nudging may not add bends, checkpoints must stay on the route, separated neighbours must respect the (reduced) distance, and remaining overlaps are classified against the corridor width. Held on the executions observed except for the recorded findings F6, F30, F31, which are matched by signature.",
+    note="Overlaps that survive nudging are a recorded finding (F30) in every option combination, so clause (a) contributes evidence (counts) rather than alarms; the endpoint, bend-count, checkpoint and separation-distance clauses alarm.",
+)
